@@ -465,6 +465,59 @@ Proof.
 Qed.
 
 
+(* ---- the key rule is over BYTES ----
+   A key is a list of bytes; new_obfs looks at their number only.  So the rule cannot depend on what the
+   bytes spell when read as text (a multi-byte UTF-8 sequence is as many bytes as it has, not one
+   character; bytes that are no UTF-8 at all, NULs and white space count like any other byte), and every
+   key of 4 or more bytes gives a working socket pair. *)
+
+Lemma key_refused_iff : forall psk, new_obfs psk = Err EInvalid <-> (length psk < 4)%nat.
+Proof.
+  intros psk. split; [|apply short_key_refused].
+  unfold new_obfs. rewrite psk_min_eq.
+  destruct (Nat.ltb (length psk) 4) eqn:E; [apply Nat.ltb_lt in E; auto|discriminate].
+Qed.
+
+Lemma key_rule_bytes_only : forall psk psk', length psk = length psk' ->
+  (new_obfs psk = Ok psk <-> new_obfs psk' = Ok psk') /\
+  (new_obfs psk = Err EInvalid <-> new_obfs psk' = Err EInvalid).
+Proof.
+  intros psk psk' Hl. split; [rewrite !key_accepted_iff; lia|].
+  rewrite !key_refused_iff. lia.
+Qed.
+
+
+Lemma any_key_round_trips : forall (H : list byte -> list byte) psk salt p plen addr,
+  (4 <= length psk)%nat -> length salt = 8%nat -> (1 <= length p <= 2040)%nat -> (length p <= plen)%nat ->
+  new_obfs psk = Ok psk /\
+  exists wire,
+    write_to H psk salt p None = Ok (wire, length p, None) /\
+    read_from H psk plen [mkEv wire addr None] = Ok (Some (mkR (length p) p addr None, [])).
+Proof.
+  intros H psk salt p plen addr Hk Hs Hp Hpl.
+  assert (Hn : new_obfs psk = Ok psk) by (apply key_accepted_iff; exact Hk).
+  split; [exact Hn|]. exact (transparent H psk psk salt p plen addr Hn Hs Hp Hpl).
+Qed.
+
+(* Not vacuous, and not the rule "at least 4 characters": count the characters of a key as a UTF-8
+   reader does for well-formed text (every byte that is not a continuation byte 10xxxxxx starts one).
+   The 4-byte keys c3 a4 c3 b6 (two characters) and f0 9f a6 8e (one character) are accepted by the
+   model and would be refused by the character rule; with them the wire packet is the one hashlib
+   computes for those key bytes. *)
+Definition is_cont (b : byte) : bool := N.eqb (N.land (b2n b) 192) 128.
+Definition chars (l : list byte) : nat := length (filter (fun b => negb (is_cont b)) l).
+Definition new_obfs_chars (psk : list byte) : Res (list byte) :=
+  if Nat.ltb (chars psk) smPSKMinLen then Err EInvalid else Ok psk.
+
+Example key_rule_is_not_characters :
+  let k2 := [xc3;xa4;xc3;xb6] in let k1 := [xf0;x9f;xa6;x8e] in
+  (chars k2 = 2 /\ new_obfs k2 = Ok k2 /\ new_obfs_chars k2 = Err EInvalid) /\
+  (chars k1 = 1 /\ new_obfs k1 = Ok k1 /\ new_obfs_chars k1 = Err EInvalid) /\
+  (* a key of three bytes is refused under both rules, whatever it spells *)
+  new_obfs [xe6;x97;xa5] = Err EInvalid /\ new_obfs [x00;x00;x00] = Err EInvalid.
+Proof. vm_compute. repeat split. Qed.
+
+
 (* ---- wire format with the real hash ---- *)
 
 Lemma wire_format : forall psk salt p, length salt = 8%nat -> (length p <= 2040)%nat ->
@@ -519,3 +572,12 @@ Lemma drops_junk_old_refuted : forall H psk plen, exists e r,
 Proof.
   intros H psk plen. exists (mkEv [] 1 None), (mkR 0 [] 1 None). cbn. repeat split; lia.
 Qed.
+
+(* wire image under keys that are not ASCII text (vectors computed with python hashlib.blake2b):
+   the key enters the hash byte for byte *)
+Example nonascii_key_wire_image :
+  let salt := [x01;x02;x03;x04;x05;x06;x07;x08] in let p := [x68;x69;x00;xff] in
+  write_to blake2b256 [xc3;xa4;xc3;xb6] salt p None = Ok (salt ++ [xa3;x89;x5e;x41], 4%nat, None) /\
+  write_to blake2b256 [xf0;x9f;xa6;x8e] salt p None = Ok (salt ++ [x77;x9c;x5b;x92], 4%nat, None) /\
+  read_from blake2b256 [xc3;xa4;xc3;xb6] 2048 [mkEv (salt ++ [xa3;x89;x5e;x41]) 7 None] = Ok (Some (mkR 4 p 7 None, [])).
+Proof. vm_compute. repeat split. Qed.
